@@ -11,4 +11,10 @@ if ! (cd harness && go build -tags verif -o /verif/bin/verif ./cmd/verif \
       && go build -tags verif -o /verif/bin/gcsemulator github.com/fullstorydev/emulators/storage/cmd/gcsemulator) >bin/build.log 2>&1; then
   echo "INCONCLUSIVE: harness build failed"; tail -20 bin/build.log; exit 2
 fi
+if [ "$1" = "C20" ]; then
+  # the concurrent request mixes of C20 run in a harness built with the race detector
+  if ! (cd harness && go build -race -tags verif -o /verif/bin/verif-race ./cmd/verif) >>bin/build.log 2>&1; then
+    echo "INCONCLUSIVE: race-detector build of the harness failed"; tail -20 bin/build.log; exit 2
+  fi
+fi
 exec bin/verif check --property "$1" --tier "${2:-quick}"
